@@ -12,7 +12,9 @@ VERIF = os.path.dirname(HERE)
 
 def run(name, prop, tier, seed, repo):
     script = os.path.join(VERIF, 'bounded', name + '.py')
-    out = os.path.join(VERIF, 'replays', f'{prop}-bounded-{name}.json')
+    OUT = os.environ.get('VERIF_OUT', VERIF)
+    os.makedirs(os.path.join(OUT, 'replays'), exist_ok=True)
+    out = os.path.join(OUT, 'replays', f'{prop}-bounded-{name}.json')
     env = dict(os.environ, VERIF_REPO=repo, MPLBACKEND='Agg', VERIF_SEED=str(seed), VERIF_TIER=tier)
     env.pop('PYTHONPATH', None)
     try:
@@ -27,9 +29,9 @@ def run(name, prop, tier, seed, repo):
                 'error': 'bounded runner failed: ' + (p.stdout + p.stderr)[-800:]}
     viol = []
     for i, v in enumerate(res.get('violations', [])[:5]):
-        rp = os.path.join(VERIF, 'replays', f'{prop}-bounded-{name}-{i}.json')
-        json.dump(dict(v, runner=name, property=prop, tier=tier, seed=seed, replay_cmd=f'/venv/bin/python bounded/{name}.py --replay {os.path.relpath(rp, VERIF)}'),
+        rp = os.path.join(OUT, 'replays', f'{prop}-bounded-{name}-{i}.json')
+        json.dump(dict(v, runner=name, property=prop, tier=tier, seed=seed, replay_cmd=f'/venv/bin/python bounded/{name}.py --replay {os.path.relpath(rp, OUT)}'),
                   open(rp, 'w'), indent=1, default=repr)
-        viol.append({'replay': os.path.relpath(rp, VERIF), 'what': v.get('what')})
+        viol.append({'replay': os.path.relpath(rp, OUT), 'what': v.get('what')})
     summary = {k: res.get(k) for k in ('name', 'bound', 'rule', 'evaluations', 'distinct_nontrivial', 'samples', 'known', 'wall_s')}
     return {'summary': summary, 'violations': viol, 'known': res.get('known', [])}
